@@ -651,7 +651,7 @@ class EmbeddedObjectProperty(Property):
 
     def clean(self, value, allow_custom, interoperability=False):
         if isinstance(value, dict):
-            value = self.type(allow_custom=allow_custom, **value)
+            value = self.type(allow_custom=allow_custom, interoperability=interoperability, **value)
         elif not isinstance(value, self.type):
             raise ValueError("must be of type {}.".format(self.type.__name__))
 
